@@ -185,7 +185,6 @@ func c09ConditionsConsultExpiry(r *core.Run) {
 		return
 	}
 	f := fn.SSA
-	pt := passThrough(r.P)
 	isExp := func(in ssa.Instruction) bool {
 		c, ok := in.(*ssa.Call)
 		if !ok || !isExpiredCall(c) {
@@ -220,67 +219,7 @@ func c09ConditionsConsultExpiry(r *core.Run) {
 				idx = 1
 			}
 			start := b.Succs[idx]
-			bad := false
-			// (1) every success path from the mode's edge asks the store for the key's ttl
-			getTTL := engineCall("GetTTL")
-			if len(start.Instrs) > 0 {
-				first := start.Instrs[0]
-				if !getTTL(first) {
-					if ret := core.ReachesReturnFrom(first, getTTL, func(x *ssa.Return) bool { return core.SuccessCapable(x, pt) }); ret != nil {
-						bad = true
-					}
-				}
-			}
-			// (2) and where the key is present (GetTTL err == nil) the expiry is evaluated
-			// before any success return
-			for _, g := range findInstrs(f, false, getTTL) {
-				if !start.Dominates(g.Block()) && start != g.Block() {
-					continue
-				}
-				call := g.(*ssa.Call)
-				var errv ssa.Value
-				for _, ref := range *call.Referrers() {
-					if ex, ok := ref.(*ssa.Extract); ok && ex.Index == 1 {
-						errv = ex
-					}
-				}
-				if errv == nil {
-					bad = true
-					continue
-				}
-				tested := false
-				for _, blk := range f.Blocks {
-					if len(blk.Instrs) == 0 {
-						continue
-					}
-					ifi2, ok := blk.Instrs[len(blk.Instrs)-1].(*ssa.If)
-					if !ok {
-						continue
-					}
-					cv, neg2 := core.StripNot(ifi2.Cond)
-					v2, nonNilTrue, ok := isErrNilTest(core.Cond{If: ifi2, Val: cv, Truth: true})
-					if !ok || v2 != errv {
-						continue
-					}
-					if neg2 {
-						nonNilTrue = !nonNilTrue
-					}
-					nilIdx := 1
-					if !nonNilTrue {
-						nilIdx = 0
-					}
-					tested = true
-					ns := blk.Succs[nilIdx]
-					if len(ns.Instrs) > 0 && !isExp(ns.Instrs[0]) {
-						if ret := core.ReachesReturnFrom(ns.Instrs[0], isExp, func(x *ssa.Return) bool { return core.SuccessCapable(x, pt) }); ret != nil {
-							bad = true
-						}
-					}
-				}
-				if !tested {
-					bad = true
-				}
-			}
+			bad := !consultsExpiry(r.P, f, start, isExp, 0)
 			r.Check(!bad, "conditions-consult-expiry", fnCheckPutConds+" mode "+flag, site(r, instrPos(ifi)),
 				"from the mode's true edge every path to a success return evaluates isKeyExpired(GetTTL(hkey))",
 				"with "+flag+" set the conditions can succeed without evaluating the stored key's expiry: an expired but not yet evicted key is treated as live ("+map[string]string{"HasNX": "NX fails on a dead key", "HasXX": "XX overwrites a dead key", "OnlyUpdateTTL": "Expire revives a dead key"}[flag]+")")
@@ -631,5 +570,93 @@ func timeoutNeedsTTLMode(r *core.Run) {
 			"the timeout is set together with the ttl-only mode (forwarded as DM.PEXPIRE)",
 			"a request carries a timeout without the ttl-only mode: on the partition owner prepareTTL honours it, but the forwarding encoder transmits a timeout only for the ttl-only mode, so the same operation issued through a non-owner member loses its expiry (e.g. a lock that is never released)")
 	}
-	r.Floor("timeout-needs-ttl-mode", cnt, 3)
+	r.Floor("timeout-needs-ttl-mode", cnt, 1) // three today; the scan is over every store to env.timeout, handlers may be merged
+}
+
+// consultsExpiry: from block start every path of f to a return that can report success
+// (1) asks the store for the key's ttl and (2) where the key is present (GetTTL's error
+// is nil) evaluates isKeyExpired on it first. A call of a same-package helper that does
+// both on all of its own success paths counts as the consultation (one level).
+func consultsExpiry(p *core.Prog, f *ssa.Function, start *ssa.BasicBlock, isExp instrPred, depth int) bool {
+	pt := passThrough(p)
+	getTTL := engineCall("GetTTL")
+	var helperConsults instrPred = func(ssa.Instruction) bool { return false }
+	if depth == 0 {
+		memo := map[*ssa.Function]bool{}
+		helperConsults = func(in ssa.Instruction) bool {
+			c, ok := in.(*ssa.Call)
+			if !ok {
+				return false
+			}
+			h := p.ByObj[core.CalleeObj(c)]
+			if h == nil || h.SSA == nil || h.SSA == f || f.Pkg == nil || h.Pkg.PkgPath != f.Pkg.Pkg.Path() || len(h.SSA.Blocks) == 0 || core.ErrIndex(h.SSA) < 0 {
+				return false
+			}
+			v, known := memo[h.SSA]
+			if !known {
+				v = len(findInstrs(h.SSA, false, getTTL)) > 0 && consultsExpiry(p, h.SSA, h.SSA.Blocks[0], isExp, 1)
+				memo[h.SSA] = v
+			}
+			return v
+		}
+	}
+	consult := func(in ssa.Instruction) bool { return getTTL(in) || helperConsults(in) }
+	bad := false
+	if len(start.Instrs) > 0 {
+		first := start.Instrs[0]
+		if !consult(first) {
+			if ret := core.ReachesReturnFrom(first, consult, func(x *ssa.Return) bool { return core.SuccessCapable(x, pt) }); ret != nil {
+				bad = true
+			}
+		}
+	}
+	for _, g := range findInstrs(f, false, getTTL) {
+		if !start.Dominates(g.Block()) && start != g.Block() {
+			continue
+		}
+		call := g.(*ssa.Call)
+		var errv ssa.Value
+		for _, ref := range *call.Referrers() {
+			if ex, ok := ref.(*ssa.Extract); ok && ex.Index == 1 {
+				errv = ex
+			}
+		}
+		if errv == nil {
+			bad = true
+			continue
+		}
+		tested := false
+		for _, blk := range f.Blocks {
+			if len(blk.Instrs) == 0 {
+				continue
+			}
+			ifi2, ok := blk.Instrs[len(blk.Instrs)-1].(*ssa.If)
+			if !ok {
+				continue
+			}
+			cv, neg2 := core.StripNot(ifi2.Cond)
+			v2, nonNilTrue, ok := isErrNilTest(core.Cond{If: ifi2, Val: cv, Truth: true})
+			if !ok || v2 != errv {
+				continue
+			}
+			if neg2 {
+				nonNilTrue = !nonNilTrue
+			}
+			nilIdx := 1
+			if !nonNilTrue {
+				nilIdx = 0
+			}
+			tested = true
+			ns := blk.Succs[nilIdx]
+			if len(ns.Instrs) > 0 && !isExp(ns.Instrs[0]) {
+				if ret := core.ReachesReturnFrom(ns.Instrs[0], isExp, func(x *ssa.Return) bool { return core.SuccessCapable(x, pt) }); ret != nil {
+					bad = true
+				}
+			}
+		}
+		if !tested {
+			bad = true
+		}
+	}
+	return !bad
 }
